@@ -249,6 +249,23 @@ pub fn install_crash_handler() {
     }
 }
 
+/// `VERIF_SKIP=<family no>:<index>,...`: cases that brought the process down in an earlier attempt of
+/// this run and are left out so that the rest of the enumeration can be judged (set by the driver for
+/// the properties whose statement does not cover crashes; the crash itself is C04's subject).
+fn skipped_cases() -> &'static std::collections::HashSet<(usize, u64)> {
+    static SKIP: std::sync::OnceLock<std::collections::HashSet<(usize, u64)>> = std::sync::OnceLock::new();
+    SKIP.get_or_init(|| {
+        std::env::var("VERIF_SKIP")
+            .unwrap_or_default()
+            .split(',')
+            .filter_map(|t| {
+                let (a, b) = t.split_once(':')?;
+                Some((a.parse().ok()?, b.parse().ok()?))
+            })
+            .collect()
+    })
+}
+
 /// `VERIF_ONLY=<family no>:<index>` restricts every sweep to that single case (used by the driver to
 /// find the case that crashes the process).
 fn only_case() -> Option<(usize, u64)> {
@@ -338,6 +355,10 @@ fn spawn_worker(sh: std::sync::Arc<Shared>, fam: &'static dyn Family, body: &'st
                 let mut acc = Acc::default();
                 for k in start..end {
                     let idx = sh.offset + k * sh.stride;
+                    if !skipped_cases().is_empty() && skipped_cases().contains(&(sh.fam_no, idx)) {
+                        acc.count("cases_skipped_because_they_crash_the_process");
+                        continue;
+                    }
                     my.started.store(sh.t0.elapsed().as_millis() as u64, Ordering::SeqCst);
                     my.idx.store(idx, Ordering::SeqCst);
                     CRUMB_FAM[crumb].store(sh.fam_no as u64, Ordering::Relaxed);
